@@ -77,6 +77,19 @@ CHECKS["C06"] = {
     "note": TRUST + " slice::Iter::fold/rfold direction and Zip pairing are trusted std; the formatted Debug string is not checked (the delegation is).",
 }
 
+CHECKS["C07"] = {
+    "technique": "guard-fact must-pass-through at the Ok construction + iterator pipeline term matching (Zip receiver order, take(N)) + owner liveness",
+    "text": "Static analysis of try_from_iter / try_boxed_from_iter / extend / from_iter: the Ok value is constructed only under the facts `destination full (position == N, resp. vec.len() == N)` AND `the one extra poll returned None`; every early Err is reached only under size_hint lower > N or upper < N (so truthful hints never cause a spurious Err); the source is polled again only when the destination is full (never after it returned None; at most N + 1 polls given the fill shape); the fill is destination.zip(source).for_each(builder closure) with the destination as Zip's receiver over the whole array and the source handed over by &mut, the boxed form goes through take(N) into Vec::with_capacity(N); the builder is a live tracked owner on the unwind path of every foreign call; from_iter = try_* + from_iter_length_fail(N). Holds for every N and every source because the source is an opaque generic iterator in the analysed MIR.",
+    "design_ref": "DESIGN.md §3 C07",
+    "note": TRUST + " Zip::next polling order and Take are std semantics; the panic message text is not checked.",
+}
+CHECKS["C08"] = {
+    "technique": "iterator-pipeline term matching on abstractly interpreted MIR + per-closure call-count dataflow (exactly-once) + delegation/impl-shape facts",
+    "text": "Static pipeline-shape analysis: each body's iterator pipeline is reconstructed as a term by the abstract interpreter and matched against its specification - generate (stack/boxed) = for_each(enumerate(iter_mut over the builder's whole array)) with a closure calling F exactly once on every path with the enumerate index and storing the result in the paired slot; map/fold = one forward full traversal of the consumer's array with f called exactly once on the value read (acc first); all six zip bodies pair two forward full traversals by one Zip and call f exactly once with (element of lhs, element of self), zip dispatches (rhs, self, f) to inverted_zip/inverted_zip2; reference receivers forward generate, &S/&mut S/Box use the un-overridden trait defaults whose pipelines are from_iter(map(into_iter(self), f)) / fold(into_iter(self), init, f) over the full forward slice iterators; Default/Clone are the element-wise instances. Any reordering/skipping adaptor is a violation. Parametricity (types) supplies the rest; nothing is executed.",
+    "design_ref": "DESIGN.md §3 C08",
+    "note": TRUST + " Order semantics of slice::Iter, Enumerate, Zip, Map, for_each, fold are trusted std.",
+}
+
 NOT_APPLICABLE = {}
 
 PENDING = "check under construction in this round; see DESIGN.md"
